@@ -36,6 +36,17 @@ func c20Rules(p *Prog, unmarshals map[ssa.CallInstruction]string) *RuleSet {
 		Atoms: []AtomDef{
 			varIs("var=devport", devPort), varIs("var=ownerport", ownPort),
 			AtomDef{Name: "is-device", Doc: "the role flag is true", Edge: func(m *Matcher, pd Pred, holds bool) bool { return pd.Kind == "bool" && holds && roleParam(pd.X) }},
+			AtomDef{Name: "port-role-match", Doc: "the instruction variable equals a value that is RVDevPort exactly when the role flag is true and RVOwnerPort otherwise", Edge: func(m *Matcher, pd Pred, holds bool) bool {
+				if pd.Kind != "eq" || !holds {
+					return false
+				}
+				for _, pr := range [][2]ssa.Value{{pd.X, pd.Y}, {pd.Y, pd.X}} {
+					if isVar(m, pr[0]) && rolePortPhi(pr[1], roleParam, devPort, ownPort) {
+						return true
+					}
+				}
+				return false
+			}},
 			AtomDef{Name: "not-device", Doc: "the role flag is false", Edge: func(m *Matcher, pd Pred, holds bool) bool { return pd.Kind == "bool" && !holds && roleParam(pd.X) }},
 			AtomDef{Name: "str-empty", Doc: "a string value was found empty", EdgeDyn: func(m *Matcher, pd Pred, holds bool) []Atom {
 				if pd.Kind != "eq" || !holds {
@@ -70,6 +81,64 @@ func c20Rules(p *Prog, unmarshals map[ssa.CallInstruction]string) *RuleSet {
 		}})
 	}
 	return rs
+}
+
+// rolePortPhi reports whether v is a two-way merge that selects dev when the
+// role flag is true and own when it is false: the merge block's incoming edge
+// carrying dev comes (directly or through one empty block) from the true
+// successor of `if flag`, the edge carrying own from its false successor.
+func rolePortPhi(v ssa.Value, roleParam func(ssa.Value) bool, dev, own int64) bool {
+	if cv, ok := v.(*ssa.Convert); ok {
+		v = cv.X
+	}
+	phi, ok := v.(*ssa.Phi)
+	if !ok || len(phi.Edges) != 2 {
+		return false
+	}
+	blk := phi.Block()
+	// origin(i): the (if-block, successor index) that edge i descends from
+	origin := func(i int) (*ssa.If, int) {
+		pred := blk.Preds[i]
+		if ifi, ok := pred.Instrs[len(pred.Instrs)-1].(*ssa.If); ok {
+			for k, s := range pred.Succs {
+				if s == blk {
+					return ifi, k
+				}
+			}
+			return nil, -1
+		}
+		if len(pred.Preds) == 1 && len(pred.Succs) == 1 {
+			pp := pred.Preds[0]
+			if ifi, ok := pp.Instrs[len(pp.Instrs)-1].(*ssa.If); ok {
+				for k, s := range pp.Succs {
+					if s == pred {
+						return ifi, k
+					}
+				}
+			}
+		}
+		return nil, -1
+	}
+	okDev, okOwn := false, false
+	for i, e := range phi.Edges {
+		c, isC := constInt(e)
+		ifi, k := origin(i)
+		if !isC || ifi == nil {
+			return false
+		}
+		pd, onTrue := normCond(ifi.Cond)
+		if pd.Kind != "bool" || !roleParam(pd.X) {
+			return false
+		}
+		flagTrue := (k == 0) == onTrue
+		if c == dev && flagTrue {
+			okDev = true
+		}
+		if c == own && !flagTrue {
+			okOwn = true
+		}
+	}
+	return okDev && okOwn
 }
 
 func checkC20(c *Ctx, p *Prog, r *Result) {
@@ -122,21 +191,54 @@ func checkC20(c *Ctx, p *Prog, r *Result) {
 			ok2 := false
 			detail := "arm does not branch on the role flag"
 			if ai, isIf := arm.Instrs[len(arm.Instrs)-1].(*ssa.If); isIf {
-				pd, onTrue := normCond(ai.Cond)
-				if pd.Kind == "bool" {
-					if _, isParam := pd.X.(*ssa.Parameter); isParam {
-						// edge index on which the flag is false / true
-						flagTrueIdx := 0
-						if !onTrue {
-							flagTrueIdx = 1
-						}
-						wantIdx := 1 - flagTrueIdx // device-only: reject when flag is false
-						if cv == ownOnly {
-							wantIdx = flagTrueIdx // owner-only: reject when flag is true
-						}
-						ok2 = returnsNil(arm.Succs[wantIdx])
-						detail = fmt.Sprintf("rejecting edge leads to return nil=%v", ok2)
+				// evaluate the arm's condition for this instruction and the role that
+				// must be rejected (device-only: the owner view, i.e. flag false;
+				// owner-only: the device view, flag true); the chosen edge must return nil
+				reject := cv == ownOnly
+				var eval func(v ssa.Value, d int) (bool, bool)
+				eval = func(v ssa.Value, d int) (bool, bool) {
+					if d > 6 {
+						return false, false
 					}
+					switch x := v.(type) {
+					case *ssa.Parameter:
+						if isBool(x.Type()) {
+							return reject, true
+						}
+					case *ssa.Const:
+						if x.Value != nil && isBool(x.Type()) {
+							return x.Value.ExactString() == "true", true
+						}
+					case *ssa.UnOp:
+						if x.Op == token.NOT {
+							if b, ok := eval(x.X, d+1); ok {
+								return !b, true
+							}
+						}
+					case *ssa.BinOp:
+						if x.Op != token.EQL && x.Op != token.NEQ {
+							return false, false
+						}
+						for _, pr := range [][2]ssa.Value{{x.X, x.Y}, {x.Y, x.X}} {
+							if c, ok := constInt(pr[1]); ok && m.Prov(pr[0]).Has("field:fdo/protocol.RvInstruction.Variable") {
+								return (cv == c) == (x.Op == token.EQL), true
+							}
+						}
+						a, ok1 := eval(x.X, d+1)
+						b, ok2 := eval(x.Y, d+1)
+						if ok1 && ok2 {
+							return (a == b) == (x.Op == token.EQL), true
+						}
+					}
+					return false, false
+				}
+				if val, okE := eval(ai.Cond, 0); okE {
+					idx := 1
+					if val {
+						idx = 0
+					}
+					ok2 = returnsNil(arm.Succs[idx])
+					detail = fmt.Sprintf("for the role to reject the arm's condition is %v and that edge leads to return nil=%v", val, ok2)
 				}
 			}
 			which := "RVDevOnly"
